@@ -228,6 +228,10 @@ func loadWorldFast(repoDir string, overlay map[string][]byte) (*World, error) {
 	for _, bp := range base.Pkgs {
 		np, err := fi.check(bp)
 		if err != nil {
+			if strings.Contains(err.Error(), "fast reload: unknown import") {
+				// the variant imports a package nothing imported before: a full load resolves it
+				return loadWorld(repoDir, overlay)
+			}
 			return nil, fmt.Errorf("load: type errors in variant:\n  %v", err)
 		}
 		pkgs = append(pkgs, np)
